@@ -62,6 +62,10 @@ def run_one(jp, spec, base):
                 transports.append("dev-stdin")
             else:
                 transports.append("file")
+        # a file argument that cannot be opened is a failure even when standard input happens to carry a
+        # perfectly good document (nothing may be read from there instead)
+        if spec["input_channel"] != "stdin" and any("no-such-file" in a or "missing-expression-file" in a for a in argv) and not stdin:
+            stdin = b'{"a": {"b": 1}, "xs": [1, 2, 3], "s": "plain"}'
         st = (h >> 12) % 4
         try:
             if st in (1, 2) and (spec["input_channel"] == "stdin" or "dev-stdin" in transports):
